@@ -418,7 +418,8 @@ class World:
                         ctx.ev()
                         ctx.count('super_queries_right_after_an_interrupted_declaration')
                         seen = set(providedBy(super(target, proxy_of)).flattened())
-                        lost = [i for i in ifs if i not in seen]
+                        # (interfaces only: a class specification among the declared things is not itself listed)
+                        lost = [i for i in ifs if isinstance(i, InterfaceClass) and i not in seen]
                         if lost:
                             ctx.violation('super-misses-declaration-after-interrupted-propagation',
                                           {'obj': proxy_of.zname, 'thisclass': target.__name__, 'declared_on': c.__name__,
